@@ -5,10 +5,12 @@ import LinfaSpec.Model.Tree
 /-!
 Driver for C14.  Request
 
-  `fit ft=64|32 form=<k> crit=g|e md=none|<n> mws4=<q> mwl4=<q> mid=<f64 hex> xd=<k> p=<p> xs=<ints2>
+  `fit ft=64|32 form=<k> crit=g|e md=none|<n> mws4=<q> mwl4=<q> mid=<f64 hex> xd=<k> xe=<k> p=<p> xs=<ints2>
        ys=<nats> lo=<nats> ws=none|<ints> wd=<k> wq=<q> pr=<ints2> lt=<k>`
 
-features are `int / 2^xd` (exactly representable in the feature type `ft`), weights
+features are `int / 2^xd * 2^xe` (exactly representable in the feature type `ft`; `xe` reaches the
+top of the exponent range: sums of two such values overflow), the integers `±2^62` stand for `±inf`;
+the weight list may be shorter than the data (`weight_for` then answers `1.0`, as `Data.w`); weights
 `f32(int / (2^wd * wq))` (`wq = 1`: dyadic, exact; `wq = 10`: decimal weights, rounded to `f32` as
 the harness does), `min_weight_split = mws4/4`, `min_weight_leaf = mwl4/4`, `mid` the
 `min_impurity_decrease` (rounded to `f32` when `ft=32`), `lo` the class indices in the order of the
@@ -20,7 +22,11 @@ The model runs with `α = Float` (`DecisionTree<f64, _>`) or `α = Float32` (`De
 
 Response `panic` or
   `ok tree=<preorder walk> imp=<importances> pred=<class of every training row, then of every probe row>
-      nl=<num_leaves> dmax=<max_depth()> feats=<features(), ascending> bfs=<iter_nodes: depth and L/N per node>`
+      nl=<num_leaves> dmax=<max_depth()> feats=<features(), in the order returned> bfs=<iter_nodes: depth and L/N per node>`
+
+The request is answered THROUGH `Tree.fit` (the function the theorems of `Props/C14.lean` are stated
+about, with `ord = id`; `fit_order_irrelevant` covers every other order), `Tree.predict`,
+`importances`, `numLeaves`, `maxDepthOf`, `featuresOf`, `iterNodes`.
 
 Everything is compared exactly (bit patterns): after the C20 repair of linfa every f32 sum over
 the class map runs in label order (`sorted_frequencies`) and modal ties are decided by label order,
@@ -34,8 +40,11 @@ instance : NatCast Float32 := ⟨Float32.ofNat⟩
 
 def pow2 (k : Nat) : Float := Float.ofNat (2 ^ k)
 
+/-- the integer that stands for an infinite feature value (`2^62`) -/
+def infCode : Int := 4611686018427387904
+
 /-- number of calling forms the harness knows (see `harness/src/c14.rs`) -/
-def nForms : Nat := 14
+def nForms : Nat := 4536
 
 section
 variable {α : Type}
@@ -70,6 +79,7 @@ def handleFitG (ofF64 : Float → α) (toF64 : α → Float) (cast : Float32 →
   let mwl4 ← argNat toks "mwl4"
   let mid ← argF64 toks "mid"
   let xd ← argNat toks "xd"
+  let xe ← argNat toks "xe"
   let xsI ← argInts2 toks "xs"
   let ys ← argNats toks "ys"
   let lo ← argNats toks "lo"
@@ -79,13 +89,15 @@ def handleFitG (ofF64 : Float → α) (toF64 : α → Float) (cast : Float32 →
   let wsI ← (if wsS == "none" then some [] else parseList parseInt wsS)
   let prI ← argInts2 toks "pr"
   let p ← argNat toks "p"
-  let conv := fun (r : List Int) => r.map fun q => ofF64 (Float.ofInt q / pow2 xd)
+  let conv := fun (r : List Int) => r.map fun q =>
+    if q == infCode then ofF64 (1.0 / 0.0) else if q == -infCode then ofF64 (-1.0 / 0.0)
+    else ofF64 (Float.ofInt q / pow2 xd * pow2 xe)
   let xs := xsI.map conv
   let K := if ys.isEmpty then 0 else (ys.foldl max 0) + 1
   -- well-formed request: rectangular, one label per row, weights absent or one per row, `lo` a
   -- permutation of the class indices
   if !(xs.all fun r => r.length == p) || ys.length != xs.length || wq == 0 || form ≥ nForms || lt > 3 ||
-      !(wsI.isEmpty || wsI.length == xs.length) || !(prI.all fun r => r.length == p) ||
+      !(wsI.length ≤ xs.length) || !(prI.all fun r => r.length == p) ||
       lo.length != K || !((List.range K).all fun c => lo.contains c) then none
   let Pm : Params α Float32 :=
     { entropy := entropy, maxDepth := md,
@@ -94,14 +106,12 @@ def handleFitG (ofF64 : Float → α) (toF64 : α → Float) (cast : Float32 →
   let Dt : Data α Float32 :=
     { xs := xs, ys := ys, ws := wsI.map fun q => (Float.ofInt q / (pow2 wd * Float.ofNat wq)).toFloat32,
       K := K, lord := lo }
-  let sorted := sortedAll Dt p
-  match fitNode Pm Dt id sorted (fitFuel Pm Dt) (allMask Dt) 0 with
-  | some u =>
-    let t := (prune u).1
+  match fit Pm Dt id p with
+  | some t =>
     let preds := (xs ++ prI.map conv).map fun r => predict r t
     some (s!"ok tree={showList id (walk toF64 t)} imp={showList (fun x => showF64c (toF64 x)) (importances t p)} " ++
       s!"pred={showList toString preds} nl={numLeaves t} dmax={maxDepthOf t} " ++
-      s!"feats={showList toString (featuresOf t p)} bfs={showList bfsTok (iterNodes t)}")
+      s!"feats={showList toString (featuresOf t)} bfs={showList bfsTok (iterNodes t)}")
   | none => some "panic"
 
 end
